@@ -35,7 +35,7 @@ META = {
                    "unchanged, that cell and face centres are mapped by the motion and that sign * normal is mapped by R",
     "assumptions": ["floats as exact reals", f"2x2 Cartesian / structured triangle grids with one node displaced by symbolic "
                     f"(dx, dy) in [-{PERT}, {PERT}]^2, also with the node order of every third face reversed (fallback branch for "
-                    f"inconsistently oriented grids); 1-d grids with 3 cells and symbolic nodes",
+                    f"inconsistently oriented grids); a 3-cell grid with two concave cells (reflex vertex displaced); 1-d grids with 3 cells and symbolic nodes",
                     "translation components in [-4, 4]", "rotations: the seven rational matrices listed in ROT (det = 1 checked)"],
     "stubs": ["np.sqrt(x): |t| when x is syntactically t*t, otherwise fresh r >= 0 with r*r == x"],
     "outside": ["rotations by angles without rational sine / cosine (a symbolic rotation needs the nested square roots of "
@@ -54,6 +54,10 @@ def shards(tier, seed):
     for kind in ("cartflip", "triflip"):
         for r in (["x90", "tilt"] if tier == "quick" else list(ROT)):
             out.append({"dim": 2, "kind": kind, "node": 4, "rot": r})
+    # concave cells (negative sub-triangle areas in the oriented branch), reflex / tip vertex displaced
+    for node in ((1,) if tier == "quick" else (1, 3, 4)):
+        for r in (["x90", "flip", "tilt"] if tier == "quick" else list(ROT)):
+            out.append({"dim": 2, "kind": "concave", "node": node, "rot": r})
     for r in (["z345", "tilt"] if tier == "quick" else list(ROT)):
         out.append({"dim": 1, "n": 3, "rot": r})
     return out
